@@ -216,6 +216,10 @@ SCENARIOS = {
     # channel names that extend one another, and glob characters: a pattern matches whole names, as fnmatch does
     "prefix-related-names": dict(programs=[["w.1", "w.10", "w.1"], ["j.7.cfg.bak", "j.7.cfg"]], patterns=["w.1", "w.10", "j.*.cfg"], pre=["w.10"]),
     "glob-classes": dict(programs=[["a1", "a2", "b1"]], patterns=["a?", "[b]1"], pre=[]),
+    # a subscription closed from another thread while it is being iterated (what subscribe(callback=...) + close() does):
+    # whatever it has not delivered stays queued, in order, for the next subscription
+    "close-from-other-thread": dict(programs=[["c", "c"]], patterns=["c"], pre=["c", "c", "c"], closers=[0]),
+    "close-one-of-two": dict(programs=[["c"]], patterns=["c", "*"], pre=["c", "c", "d"], closers=[1]),
 }
 
 
@@ -239,6 +243,10 @@ def make_scenario(sc):
                 for msg in subs[j]:
                     received[j].append(msg.data)
             bodies.append(sub)
+        for j in sc.get("closers", []):
+            def closer(j=j):
+                subs[j].close()
+            bodies.append(closer)
 
         def finish(ex):
             rest = []
@@ -285,7 +293,7 @@ def judge(sc, ex, obs):
     if dup:
         out.append(("message-duplicated", f"delivered more often than published: {sorted(dup.elements(), key=str)}"))
     for (p, ch, k) in obs["rest"]:
-        pats = [pat for pat in sc["patterns"] if fnmatch.fnmatch(ch, pat)]
+        pats = [pat for j, pat in enumerate(sc["patterns"]) if fnmatch.fnmatch(ch, pat) and j not in sc.get("closers", [])]
         if pats:
             out.append(("stranded-behind-open-subscription",
                         f"message {(p, ch, k)} stays queued although the open subscription(s) {pats} were iterated again after it was published"))
@@ -321,7 +329,8 @@ def run(tier: str) -> int:
     files = {M.__file__}
     bound = 2 if tier == "quick" else 3
     per = {"new-channel-2pub-1sub": 220, "two-channels-wildcard": 120, "existing-channel": 80, "pattern-routing": 80,
-           "2sub-same-channel": 160, "exact-and-wildcard-sub": 100, "prefix-related-names": 40, "glob-classes": 20} if tier == "quick" else \
+           "2sub-same-channel": 160, "exact-and-wildcard-sub": 100, "prefix-related-names": 40, "glob-classes": 20,
+           "close-from-other-thread": 160, "close-one-of-two": 80} if tier == "quick" else \
           {k: 1500 for k in SCENARIOS}
     stats = {"executions": 0, "distinct_schedules": 0, "by_scenario": {}, "max_points": 0, "preemption_bound": bound,
              "timeouts": 0, "model_runs": 0, "model_losing": 0}
